@@ -104,7 +104,8 @@ def earlier_assignment(mps, x, aseed: int):
     import torch
     was = mps.training
     set_coefficients(mps, aseed + 7919)          # other values, written the other way
-    mps.eval()
+    if was:
+        mps.eval()          # (no mode call at all on a model that already is in eval mode)
     with torch.no_grad():
         try:
             mps(x)
@@ -115,7 +116,8 @@ def earlier_assignment(mps, x, aseed: int):
                 mps.export()                     # ... and that assignment was exported
         except Exception:  # noqa - whatever fails here fails again, visibly, in the case proper
             pass
-    mps.train(was)
+    if was:
+        mps.train(True)
 
 
 def mps_input(spec, xseed: int, clip: float = 1.0, batch: int = 2):
